@@ -35,14 +35,20 @@ func mkpath(dir, name string) pathname {
 type MemFs struct {
 	m         sync.Mutex
 	validDirs map[string]bool
-	// fd -> data
-	// (note that fds and inodes overlap)
-	// (note also that there are no directory fds, so these are all files)
+	// inode -> data
+	// (note that there are no directory inodes, so these are all files)
 	inodes map[int][]byte
 	// (dir,name) -> inode
 	dirents map[pathname]int
-	// solely for catching misuse we track open files
-	openFiles map[int]fileMode
+	// fd -> open file; every Create and Open gets its own descriptor
+	openFiles map[int]openFile
+	// number of descriptors handed out so far
+	numFds int
+}
+
+type openFile struct {
+	inode int
+	mode  fileMode
 }
 
 // NewMemFs creates an empty MemFs
@@ -51,7 +57,7 @@ func NewMemFs() *MemFs {
 		validDirs: make(map[string]bool),
 		inodes:    make(map[int][]byte),
 		dirents:   make(map[pathname]int),
-		openFiles: make(map[int]fileMode),
+		openFiles: make(map[int]openFile),
 	}
 }
 
@@ -61,8 +67,14 @@ func (fs *MemFs) checkDir(dir string) {
 	}
 }
 
-func (fs *MemFs) nextFd() int {
+func (fs *MemFs) nextInode() int {
 	return len(fs.inodes) + 1
+}
+
+func (fs *MemFs) newFd(inode int, mode fileMode) File {
+	fs.numFds++
+	fs.openFiles[fs.numFds] = openFile{inode: inode, mode: mode}
+	return File(fs.numFds)
 }
 
 func (fs *MemFs) Create(dir, fname string) (f File, ok bool) {
@@ -73,29 +85,28 @@ func (fs *MemFs) Create(dir, fname string) (f File, ok bool) {
 	if _, ok := fs.dirents[p]; ok {
 		return File(-1), false
 	}
-	fd := fs.nextFd()
-	fs.inodes[fd] = nil
-	fs.dirents[p] = fd
-	fs.openFiles[fd] = appendMode
-	return File(fd), true
+	inode := fs.nextInode()
+	fs.inodes[inode] = nil
+	fs.dirents[p] = inode
+	return fs.newFd(inode, appendMode), true
 }
 
 func (fs *MemFs) checkMode(f File, mode fileMode) int {
-	actual, ok := fs.openFiles[f.fd()]
+	of, ok := fs.openFiles[f.fd()]
 	if !ok {
 		panic(fmt.Errorf("use of unopened file %d", f.fd()))
 	}
-	if actual != mode {
-		panic(fmt.Errorf("attempt to use file using %s != %s", mode, actual))
+	if of.mode != mode {
+		panic(fmt.Errorf("attempt to use file using %s != %s", mode, of.mode))
 	}
-	return f.fd()
+	return of.inode
 }
 
 func (fs *MemFs) Append(f File, data []byte) {
 	fs.m.Lock()
 	defer fs.m.Unlock()
-	fd := fs.checkMode(f, appendMode)
-	fs.inodes[fd] = append(fs.inodes[fd], data...)
+	inode := fs.checkMode(f, appendMode)
+	fs.inodes[inode] = append(fs.inodes[inode], data...)
 }
 
 func (fs *MemFs) Close(f File) {
@@ -112,19 +123,18 @@ func (fs *MemFs) Open(dir, fname string) File {
 	defer fs.m.Unlock()
 	fs.checkDir(dir)
 	fname = path.Clean(fname)
-	fd, ok := fs.dirents[mkpath(dir, fname)]
+	inode, ok := fs.dirents[mkpath(dir, fname)]
 	if !ok {
 		panic(fmt.Errorf("file %s does not exist", fname))
 	}
-	fs.openFiles[fd] = readMode
-	return File(fd)
+	return fs.newFd(inode, readMode)
 }
 
 func (fs *MemFs) ReadAt(f File, offset uint64, length uint64) []byte {
 	fs.m.Lock()
 	defer fs.m.Unlock()
-	fd := fs.checkMode(f, readMode)
-	data := fs.inodes[fd]
+	inode := fs.checkMode(f, readMode)
+	data := fs.inodes[inode]
 	if offset >= uint64(len(data)) {
 		return nil
 	}
@@ -147,11 +157,11 @@ func (fs *MemFs) AtomicCreate(dir, fname string, data []byte) {
 	fs.m.Lock()
 	defer fs.m.Unlock()
 	fs.checkDir(dir)
-	fd := fs.nextFd()
+	inode := fs.nextInode()
 	p := make([]byte, len(data))
 	copy(p, data)
-	fs.inodes[fd] = p
-	fs.dirents[mkpath(dir, fname)] = fd
+	fs.inodes[inode] = p
+	fs.dirents[mkpath(dir, fname)] = inode
 }
 
 func (fs *MemFs) Link(oldDir, oldName, newDir, newName string) bool {
